@@ -17,3 +17,4 @@ CONSTANTS
   Horizon = 0
   Fx <- FxAll
   Assume = FALSE
+  CancelAts = {}
